@@ -2,39 +2,49 @@
 {
  "name": "array_update_map",
  "props": ["C15", "C06"],
- "level": "B(4)",
+ "level": "B(3)",
  "tier": "wip",
  "harness": "h_array_update_map",
  "replace": ["find_ea_index", "xattr_update_entry", "ext2fs_xattrs_expand"],
- "unwind": 10,
- "unwind_reason": "bounded unit: at most 4 attributes (capacity 4, expanded to 8 when full), short names <= 2 bytes; xattr_find_position's loop (<= 4 iterations), libc strlen/memcmp models on <= 3-byte strings, the element loops of the memmove stub (8) and the harness loops (<= 8) are unwound, unwinding assertions on",
+ "unwind": 8,
+ "unwind_reason": "bounded unit: at most 3 attributes in an array of capacity 4 (no expansion), short names <= 2 bytes; xattr_find_position's loop (<= 3 iterations), the element loops of the memmove stub (4) and the harness loops (<= 5) are unwound, unwinding assertions on",
  "functions": ["lib/ext2fs/ext_attr.c:xattr_array_update", "lib/ext2fs/ext_attr.c:xattr_find_position"],
- "assumes": ["BOUNDED: count <= 4 attributes, short names <= 2 bytes with an optional 1-byte prefix, name index 0..3; value lengths and EA-inode numbers arbitrary (<= 2^24 / 32 bit), region capacities arbitrary <= 65536",
-             "handle well formed: 0 <= ibody_count <= count <= capacity = 4, names are distinct heap strings, the block part (entries ibody_count..count-1) is sorted in the kernel's order, unused slots are zero",
+ "assumes": ["BOUNDED: count <= 3 attributes before the call (the 4-attribute case with expansion is unit array_update_map_full), short names <= 2 bytes with an optional 1-byte prefix, name index 0..3; value lengths and EA-inode numbers arbitrary (<= 2^24 / 32 bit), region capacities arbitrary <= 65536",
+             "handle well formed: 0 <= ibody_count <= count <= 3 < capacity = 4, names are distinct heap strings, the block part (entries ibody_count..count-1) is sorted in the kernel's order, unused slots are zero",
              "call-site guarantees of ext2fs_xattr_set: old_idx is the index of the entry with the same full name (hence same name index and short name) or -1 if there is none; ibody_free / block_free = region capacity minus the terminator minus the space the region's entries use (computed here by the specification sum XSPEC_NEED, which space_used is proved to equal)",
-             "callees by contract: find_ea_index (short name = name + prefix length, index as for the same-named entry), xattr_update_entry (full contract proved in update_entry), ext2fs_xattrs_expand (fails, or the new array holds the old elements followed by zeroed slots; proved for the real function in unit xattrs_expand)",
-             "libc strlen / memcmp are CBMC's built-in models; libc memmove is a stub with ISO semantics specialised to whole array elements (applicability CHECKED at every call)"],
+             "callees by contract: find_ea_index (short name = name + prefix length, index as for the same-named entry), xattr_update_entry (contract proved in update_entry; the release of the old value buffer is not modelled here), ext2fs_xattrs_expand (never called here)",
+             "libc strlen / memcmp are stubs that identify their arguments among the harness's name buffers by pointer comparison (CHECKED) and compute the ISO C result from the known contents (the short-name pointer coming out of the find_ea_index contract is a constrained nondeterministic pointer CBMC cannot dereference); libc memmove is a stub with ISO semantics specialised to whole array elements (applicability CHECKED at every call)"],
  "native": false
 }
 */
 /* VERIF-UNIT
 {
- "name": "xattrs_expand",
+ "name": "array_update_map_full",
  "props": ["C15", "C06"],
- "level": "U/k",
+ "level": "B(4)",
  "tier": "wip",
- "harness": "h_xattrs_expand",
+ "harness": "h_array_update_map",
+ "defines": ["XAT_MAP_FULL"],
+ "replace": ["find_ea_index", "xattr_update_entry", "ext2fs_xattrs_expand"],
  "unwind": 10,
- "unwind_reason": "ext2fs_xattrs_expand is loop-free; capacity fixed to 4 and expandby to 4 (the only values used in the tree: initial capacity 4, growth by 4); harness loop over the 8 slots unwound, unwinding assertions on",
- "functions": ["lib/ext2fs/ext_attr.c:ext2fs_xattrs_expand"],
- "assumes": ["capacity 4 -> 8 (the first expansion); later expansions run the same code with larger constants"],
+ "unwind_reason": "bounded unit: exactly 4 attributes in a full array of capacity 4 and a NEW name (expansion to 8 slots); xattr_find_position's loop (<= 4), the memmove stub's element loops (8) and the harness loops (<= 8) are unwound, unwinding assertions on",
+ "functions": ["lib/ext2fs/ext_attr.c:xattr_array_update", "lib/ext2fs/ext_attr.c:xattr_find_position"],
+ "assumes": ["as array_update_map, with count = capacity = 4 and old_idx = -1",
+             "ext2fs_xattrs_expand by contract: fails, or the new array holds the old elements followed by zeroed slots (proved for the real function in unit xattrs_expand)"],
  "native": false
 }
 */
 #define XAT_UPDATE_ENTRY_NO_FREES
 #include "xat_common.h"
 
-#define NA 4		/* attributes before the call */
+#define CAP0 4		/* capacity before the call (the initial capacity of a handle) */
+#ifdef XAT_MAP_FULL
+#define NA 4		/* attributes before the call: the array is full, a new name forces the expansion to 8 slots */
+#define XCAP 8
+#else
+#define NA 3		/* at most 3 attributes before the call: no expansion */
+#define XCAP 4
+#endif
 #define NL 2		/* short-name bytes */
 struct in_attr {
 	unsigned char pfx;		/* 0/1: length of the prefix inside the full name */
@@ -61,22 +71,33 @@ struct in_s IN;
 #ifndef VERIF_NATIVE
 /*
  * libc memmove, specialised to what xattr_array_update moves: whole struct ext2_xattr elements inside one array of at
- * most 8 elements (both CHECKED).  ISO semantics: as if copied through a temporary.  CBMC's built-in model with a
+ * most 8 elements (both CHECKED).  ISO semantics (overlap-safe copy direction).  CBMC's built-in model with a
  * symbolic length costs 11M SAT variables here.
  */
+struct ext2_xattr *g_arr;	/* the handle's array before the call */
+struct ext2_xattr *g_newarr;	/* array ext2fs_xattrs_expand installs (full-array variant): prepared by the harness as old elements + zeroed slots */
 void *memmove(void *dst, const void *src, size_t n)
 {
 	__CPROVER_assert(__CPROVER_r_ok(src, n), "CHECK:memmove source range readable");
 	__CPROVER_assert(__CPROVER_w_ok(dst, n), "CHECK:memmove destination range inside the attribute array");
-	size_t ne = n / sizeof(struct ext2_xattr);
-	__CPROVER_assert(n % sizeof(struct ext2_xattr) == 0 && ne <= 2 * NA, "CHECK:memmove moves whole array elements");
-	struct ext2_xattr tmp[2 * NA];
-	const struct ext2_xattr *s = src;
-	struct ext2_xattr *d = dst;
-	for (size_t i = 0; i < 2 * NA; i++)
-		if (i < ne) tmp[i] = s[i];
-	for (size_t i = 0; i < 2 * NA; i++)
-		if (i < ne) d[i] = tmp[i];
+	/* element count and element indices by comparison (no 64-bit divider, no byte-offset dereference) */
+	struct ext2_xattr *base = __CPROVER_same_object(dst, g_arr) ? g_arr : g_newarr;
+	size_t ne = XCAP + 1, di = XCAP + 1, si = XCAP + 1;
+	for (size_t q = 0; q <= XCAP; q++) {
+		if (n == q * sizeof(struct ext2_xattr)) ne = q;
+		if ((struct ext2_xattr *)dst == base + q) di = q;
+		if ((const struct ext2_xattr *)src == base + q) si = q;
+	}
+	__CPROVER_assert(ne <= XCAP && di <= XCAP && si <= XCAP, "CHECK:memmove moves whole elements inside the handle's array");
+	__CPROVER_assume(ne <= XCAP && di <= XCAP && si <= XCAP);
+	/* overlapping ranges: copy towards lower addresses front to back, towards higher addresses back to front */
+	if (di <= si) {
+		for (size_t i = 0; i < XCAP; i++)
+			if (i < ne) base[di + i] = base[si + i];
+	} else {
+		for (size_t i = XCAP; i > 0; i--)
+			if (i - 1 < ne) base[di + i - 1] = base[si + i - 1];
+	}
 	return dst;
 }
 #endif
@@ -90,16 +111,15 @@ static int find_ea_index(const char *fullname, const char **name, int *index)
 	ENSURES(g_off ? *index == g_key_idx : *index == OLD(*index))
 	ASSIGNS(*name, *index);
 
-struct ext2_xattr *g_newarr;	/* array ext2fs_xattrs_expand installs: prepared by the harness as old elements + zeroed slots */
 unsigned int xat_ek;		/* ghost element index */
 #define SLOT_EQ(p, q) ((p).name == (q).name && (p).short_name == (q).short_name && (p).value == (q).value && \
 		       (p).value_len == (q).value_len && (p).ea_ino == (q).ea_ino && (p).name_index == (q).name_index)
 static errcode_t ext2fs_xattrs_expand(struct ext2_xattr_handle *h, unsigned int expandby)
-	REQUIRES(h->capacity == NA && expandby == 4)
-	REQUIRES(!(xat_ek < NA) || SLOT_EQ(g_newarr[xat_ek], h->attrs[xat_ek]))	/* the prepared copy is still accurate */
+	REQUIRES(h->capacity == CAP0 && expandby == 4 && g_newarr != 0)
+	REQUIRES(!(xat_ek < CAP0) || SLOT_EQ(g_newarr[xat_ek], h->attrs[xat_ek]))	/* the prepared copy is still accurate */
 	ENSURES(RET == IN.rc_expand)
 	ENSURES(RET == 0 || (h->attrs == OLD(h->attrs) && h->capacity == OLD(h->capacity)))
-	ENSURES(RET != 0 || (h->capacity == 2 * NA && h->attrs == g_newarr))
+	ENSURES(RET != 0 || (h->capacity == 2 * CAP0 && h->attrs == g_newarr))
 	ASSIGNS(h->attrs, h->capacity);
 
 /* ---- specification helpers (independent of the code) ---- */
@@ -126,17 +146,63 @@ static int spec_same_name(const struct in_attr *a, const struct in_attr *b)
 
 static char *NAMEBUF[NA + 1];
 static void *VALBUF[NA];
-static char *mkname(const struct in_attr *a)
+/* character p of the full name of attribute i (i == NA: the key), 0 beyond its end */
+static unsigned char name_char(unsigned int i, unsigned int p)
+{
+	const struct in_attr *a = &IN.a[i];
+	if (a->pfx) {
+		if (p == 0) return a->bytes[0];
+		p--;
+	}
+	return p < a->len ? a->bytes[1 + p] : 0;
+}
+static char *mkname(unsigned int i)
 {
 	char *p = malloc(1 + NL + 1);
 	ASSUME(p != 0);
-	unsigned int n = 0;
-	if (a->pfx) p[n++] = (char)a->bytes[0];
-	if (a->len > 0) p[n++] = (char)a->bytes[1];
-	if (a->len > 1) p[n++] = (char)a->bytes[2];
-	p[n] = 0;
+	for (unsigned int k = 0; k < 1 + NL + 1; k++)
+		p[k] = (char)name_char(i, k);
 	return p;
 }
+#ifndef VERIF_NATIVE
+/*
+ * libc strlen / memcmp for the strings of this harness.  The short-name pointer produced by the find_ea_index
+ * contract is a constrained nondeterministic pointer, which CBMC cannot dereference; so the two functions
+ * identify their arguments among the harness's name buffers by pointer comparison (CHECKED: every argument is
+ * one of them) and compute the ISO C result from the known contents.
+ */
+static int which_name(const char *s, unsigned int *off)
+{
+	/* every pointer the code forms is a full name or a short name = full name + prefix length (0 or 1) */
+#define WN(i) if (NAMEBUF[i] != 0 && s == NAMEBUF[i]) { *off = 0; return i; } if (NAMEBUF[i] != 0 && s == NAMEBUF[i] + 1) { *off = 1; return i; }
+	WN(0) WN(1) WN(2) WN(3)
+#if NA == 4
+	WN(4)
+#endif
+#undef WN
+	return -1;
+}
+size_t strlen(const char *s)
+{
+	unsigned int o = 0;
+	int i = which_name(s, &o);
+	__CPROVER_assert(i >= 0, "CHECK:strlen argument is one of the harness's names");
+	__CPROVER_assume(i >= 0);
+	unsigned int total = (unsigned int)IN.a[i].pfx + IN.a[i].len;	/* no NUL inside: all name bytes are non-zero */
+	return total >= o ? total - o : 0;
+}
+int memcmp(const void *a, const void *b, size_t n)
+{
+	unsigned int oa = 0, ob = 0;
+	int i = which_name(a, &oa), j = which_name(b, &ob);
+	__CPROVER_assert(i >= 0 && j >= 0 && oa + n <= 1 + NL + 1 && ob + n <= 1 + NL + 1, "CHECK:memcmp arguments are harness names, ranges inside them");
+	__CPROVER_assume(i >= 0 && j >= 0);
+#define MC(k) if (n > (k)) { unsigned char ca = name_char((unsigned)i, oa + (k)), cb = name_char((unsigned)j, ob + (k)); if (ca != cb) return ca < cb ? -1 : 1; }
+	MC(0) MC(1) MC(2) MC(3)
+#undef MC
+	return 0;
+}
+#endif
 #define RC_OK(rc) ((rc) >= 0 && (rc) <= 0x7fffffffL && (rc) != EXT2_ET_EA_NO_SPACE)
 
 void h_array_update_map(void)
@@ -147,16 +213,23 @@ void h_array_update_map(void)
 	ASSUME(IN.cap_i <= 65536 && IN.cap_b <= 65536 && IN.value_len <= (1u << 24) && IN.new_ino != 0);
 	ASSUME(RC_OK(IN.rc_expand));
 	struct ext2_xattr_handle H, *h = &H;	/* on the stack: CBMC propagates constants through it (a heap handle makes every size symbolic) */
-	struct ext2_xattr *a = malloc(NA * sizeof(struct ext2_xattr));
-	g_newarr = malloc(2 * NA * sizeof(struct ext2_xattr));
-	ASSUME(a != 0 && g_newarr != 0);
+	struct ext2_xattr *a = malloc(CAP0 * sizeof(struct ext2_xattr));
+	ASSUME(a != 0);
+	g_arr = a;
+#ifdef XAT_MAP_FULL
+	ASSUME(IN.count == NA && IN.old_idx == -1);	/* the full-array variant: a new name must expand the array */
+	g_newarr = malloc(2 * CAP0 * sizeof(struct ext2_xattr));
+	ASSUME(g_newarr != 0);
+#else
+	g_newarr = 0;
+#endif
 	long long sum_i = 0, sum_b = 0;
 	for (int i = 0; i <= NA; i++) {
 		struct in_attr *t = &IN.a[i];
 		ASSUME(t->pfx <= 1 && t->len <= NL && t->idx <= 3 && t->value_len <= (1u << 24));
 		ASSUME(t->bytes[0] != 0 && (t->len < 1 || t->bytes[1] != 0) && (t->len < 2 || t->bytes[2] != 0));
 		ASSUME(t->pfx || t->idx == 0);		/* no known prefix: name index 0 */
-		NAMEBUF[i] = mkname(t);
+		NAMEBUF[i] = mkname((unsigned)i);
 		if (i == NA) break;
 		if (i < IN.count) {
 			a[i].name = NAMEBUF[i];
@@ -183,16 +256,23 @@ void h_array_update_map(void)
 			a[i].name = 0; a[i].short_name = 0; a[i].name_index = 0; a[i].value = 0; a[i].value_len = 0; a[i].ea_ino = 0;
 			VALBUF[i] = 0;
 		}
-		g_newarr[i] = a[i];
 	}
-	for (int i = NA; i < 2 * NA; i++) {
-		g_newarr[i].name = 0; g_newarr[i].short_name = 0; g_newarr[i].name_index = 0;
-		g_newarr[i].value = 0; g_newarr[i].value_len = 0; g_newarr[i].ea_ino = 0;
+	for (int i = NA; i < CAP0; i++) {
+		a[i].name = 0; a[i].short_name = 0; a[i].name_index = 0; a[i].value = 0; a[i].value_len = 0; a[i].ea_ino = 0;
 	}
+#ifdef XAT_MAP_FULL
+	for (int i = 0; i < 2 * CAP0; i++) {
+		if (i < CAP0) g_newarr[i] = a[i];
+		else {
+			g_newarr[i].name = 0; g_newarr[i].short_name = 0; g_newarr[i].name_index = 0;
+			g_newarr[i].value = 0; g_newarr[i].value_len = 0; g_newarr[i].ea_ino = 0;
+		}
+	}
+#endif
 	struct in_attr *key = &IN.a[NA];
 	unsigned char *value = malloc(IN.value_len ? IN.value_len : 1);
 	ASSUME(value != 0);
-	h->magic = EXT2_ET_MAGIC_EA_HANDLE; h->fs = 0; h->attrs = a; h->capacity = NA;
+	h->magic = EXT2_ET_MAGIC_EA_HANDLE; h->fs = 0; h->attrs = a; h->capacity = CAP0;
 	h->count = IN.count; h->ibody_count = IN.ibody_count; h->ino = 12; h->flags = 0;
 	g_off = key->pfx;
 	g_key_idx = key->idx;
@@ -227,7 +307,11 @@ void h_array_update_map(void)
 		if (IN.old_idx >= 0)
 			is_key = n[p].name == NAMEBUF[IN.old_idx];
 		else
-			is_key = n[p].name != NAMEBUF[0] && n[p].name != NAMEBUF[1] && n[p].name != NAMEBUF[2] && n[p].name != NAMEBUF[3];
+			{
+			is_key = 1;
+			for (int q = 0; q < NA; q++)
+				if (n[p].name == NAMEBUF[q]) is_key = 0;
+		}
 		if (is_key) { P = p; hits++; }
 	}
 	CHECK(hits == 1, "exactly one entry carries the key");
@@ -275,38 +359,12 @@ void h_array_update_map(void)
 	else
 		CHECK(new_b + 4 <= (long long)IN.cap_b, "the region that receives the entry has room for it (block)");
 	if (IN.old_idx >= 0 && IN.a[IN.old_idx].ea_ino != 0 && !IN.in_inode) REACH("ea-inode-value-replaced-by-inline");
-	if (IN.count == NA) REACH("expanded");
+#ifdef XAT_MAP_FULL
+	CHECK(h->attrs == g_newarr && h->capacity == 2 * CAP0, "full array: expanded");
+	REACH("expanded");
+#endif
 	if (IN.old_idx >= 0 && IN.old_idx < IN.ibody_count && P >= ib) REACH("moved-to-block");
 	if (IN.old_idx >= IN.ibody_count && P < ib) REACH("moved-to-ibody");
 	REACH("end");
 }
 
-void h_xattrs_expand(void)
-{
-	LOAD_IN();
-	struct ext2_xattr_handle H, *h = &H;	/* on the stack: CBMC propagates constants through it (a heap handle makes every size symbolic) */
-	struct ext2_xattr *a = malloc(NA * sizeof(struct ext2_xattr));	/* contents arbitrary */
-	ASSUME(a != 0);
-	h->magic = EXT2_ET_MAGIC_EA_HANDLE; h->fs = 0; h->attrs = a; h->capacity = NA;
-	h->count = IN.count; h->ibody_count = IN.ibody_count; h->ino = 12; h->flags = 0;
-	struct ext2_xattr before[NA];
-	for (int i = 0; i < NA; i++) before[i] = a[i];
-	errcode_t r = ext2fs_xattrs_expand(h, 4);
-	CHECK(RC_OK(r), "error code in the range the callers rely on");
-	if (r) {
-		CHECK(h->attrs == a && h->capacity == NA, "failure: nothing changed");
-		REACH("failed");
-	} else {
-		CHECK(h->capacity == 2 * NA && h->attrs != a && h->attrs != 0, "capacity grown by expandby, new array");
-		for (int i = 0; i < 2 * NA; i++) {
-			if (i < NA)
-				CHECK(SLOT_EQ(h->attrs[i], before[i]), "old elements copied");
-			else
-				CHECK(h->attrs[i].name == 0 && h->attrs[i].short_name == 0 && h->attrs[i].value == 0 &&
-				      h->attrs[i].value_len == 0 && h->attrs[i].ea_ino == 0 && h->attrs[i].name_index == 0, "new slots zeroed");
-		}
-		REACH("expanded");
-	}
-	CHECK(h->count == IN.count && h->ibody_count == IN.ibody_count, "counts untouched");
-	REACH("end");
-}
